@@ -211,6 +211,7 @@ func c32run(ctx *vc.Ctx) {
 	c32relayForward(g)
 	c32delegate(g)
 	c32e2e(g)
+	c32noAliasing(g)
 	c32relayConcurrent(ctx)
 }
 
